@@ -453,7 +453,11 @@ impl TestSource {
 pub fn to_le_bytes(samples: &[i32], bytes: usize) -> Vec<u8> {
     let mut out = Vec::with_capacity(samples.len() * bytes);
     for v in samples {
-        out.extend_from_slice(&v.to_le_bytes()[..bytes]);
+        let le = v.to_le_bytes();
+        let sign = if *v < 0 { 0xFFu8 } else { 0 };
+        for k in 0..bytes {
+            out.push(if k < 4 { le[k] } else { sign });
+        }
     }
     out
 }
